@@ -2,6 +2,55 @@
 from . import core, coregen, coretie
 
 
+# ---- constant expressions (outside the code-generator model, which does not fold): literal-only expressions in every
+# value position, with the value the language defines (truncating / and %, remainder with the sign of the dividend)
+def _cexpr(rng, depth):
+    """-> (text, value) of a literal-only int expression; no zero divisor, small values"""
+    if depth == 0 or rng.random() < 0.25:
+        v = rng.randint(-9, 9)
+        return (str(v), v, 9)
+    for _ in range(20):
+        op = rng.choice(["+", "-", "*", "/", "%", "%", "/"])
+        a, av, ap = _cexpr(rng, depth - 1)
+        b, bv, bp = _cexpr(rng, depth - 1)
+        lvl = 6 if op in "+-" else 7
+        if op in "/%" and bv == 0:
+            continue
+        if op == "+":
+            v = av + bv
+        elif op == "-":
+            v = av - bv
+        elif op == "*":
+            v = av * bv
+        else:
+            q = abs(av) // abs(bv) * (1 if (av < 0) == (bv < 0) else -1)
+            v = q if op == "/" else av - q * bv
+        if abs(v) > 10 ** 6:
+            continue
+        # a negative literal is a prefix minus: it binds tighter than every infix operator, so no parentheses on the left;
+        # as a RIGHT operand it is parenthesised (`3 - -2` is fine, but keep the text unambiguous for the reader)
+        ta = "(%s)" % a if ap < lvl else a
+        tb = "(%s)" % b if (bp <= lvl or b.startswith("-")) else b
+        return ("%s %s %s" % (ta, op, tb), v, lvl)
+    v = rng.randint(1, 9)
+    return (str(v), v, 9)
+
+
+def constant_programs(rng, n):
+    out = []
+    for _ in range(n):
+        e = [_cexpr(rng, rng.randint(1, 3)) for _ in range(8)]
+        lo, hi = sorted([abs(e[6][1]) % 4, abs(e[7][1]) % 4 + 3])
+        src = ("a = %s\nprint a\nprint %s\nf = fn(k: int) -> int {\n  return k * 2\n}\nprint f(%s)\ng = fn() -> int {\n  return %s\n}\nprint g()\n"
+               "if %s < %s {\n  print \"lt\"\n} else {\n  print \"ge\"\n}\n" % (e[0][0], e[1][0], e[2][0], e[3][0], e[4][0], e[5][0]))
+        exp = [str(e[0][1]), str(e[1][1]), str(e[2][1] * 2), str(e[3][1]), "lt" if e[4][1] < e[5][1] else "ge"]
+        # loop bounds written as constant expressions with the value lo / hi
+        src += "from %d + (%s) %% 1 to %d - (%s) %% 1 {\n  print \"i\"\n}\nprint \"end\"\n" % (lo, e[6][0], hi, e[7][0])
+        exp += ["i"] * (hi - lo) + ["end"]
+        out.append((src, exp))
+    return out
+
+
 def run(ctx):
     ok = core.coq_props(ctx, "Props/C01.v")
     binary = core.build_repo()
@@ -39,7 +88,24 @@ def run(ctx):
         if r["status"] == "rejected" and r["proj"].get("kind") == "skeleton":
             ctx.report("skeleton-rejected", "a skeleton program is rejected by the compiler: %s" % r.get("stderr", "")[-300:],
                        {"project": coretie.slim(r["proj"])}, found_input=False)
-    ctx.cov["evaluations"] = st["programs"]
+    from . import programs
+    cbase = ctx.mktemp()
+    cps = constant_programs(ctx.rng, 60 if ctx.quick() else 1500)
+
+    def one_c(c):
+        d = programs.materialize({"files": {"main.ms": c[0]}}, cbase)
+        return programs.run_bin(binary, ["run", "main.ms", "-q"], d)
+    n_const = 0
+    for (src, exp), (rc, out, err) in zip(cps, programs.pmap(one_c, cps)):
+        if "Did not compile" in err and "guaranteed to fail" in (out + err):
+            continue
+        n_const += 1
+        got = out.split("\n")[:-1]
+        if rc != 0 or got != exp:
+            ctx.report("semantics:constant-expression", "literal-only expressions in value positions: printed %r (exit %d), the language defines %r: %s" % (got, rc, exp, (out + err)[-200:].replace("\n", " ")),
+                       {"program": src, "expected": exp, "observed": got, "rc": rc, "how": "mscript run main.ms -q"})
+    ctx.cov["constant_expression_programs"] = n_const
+    ctx.cov["evaluations"] = st["programs"] + n_const
     ctx.cov["distinct_nontrivial"] = len(set(r["proj"]["files"]["main.ms"] for r in results if r["status"] == "ran" and r.get("steps", 0) > 30))
     ctx.cov["rule"] = ("programs = all statement skeletons to nesting depth %d (each as a function body called with 3 data variants and at module level) "
                        "+ random well-typed Core programs (depth <= 3 and <= 5); non-trivial = distinct program whose real run executes > 30 instructions" % depth)
